@@ -172,6 +172,10 @@ def jobs(tier, seed):
             add(g, eq, pre + 'sml')
             add(g, eq, pre + 'msl')
             add(g, eq, pre + 'lsm')
+            for rep in ('ss', 'ssl', 'lss', 'sls'):       # the same plain label in two operand positions
+                add(g, eq, pre + rep)
+            if eq:
+                add(g, eq, 'sls')                          # the output label is also an input
             if eq:
                 add(g, eq, 'P' + 'l' * max(lo, 2))
                 add(g, eq, 'n' + 'l' * max(lo, 2))
